@@ -13,6 +13,7 @@ import (
 	"net/http/httptest"
 	"os"
 	"path/filepath"
+	"sync"
 
 	dslib "github.com/ahimsalabs/durable-streams-go/durablestream"
 	"github.com/ahimsalabs/durable-streams-go/durablestream/memorystorage"
@@ -118,7 +119,14 @@ func (m *Medium) Path() string {
 
 type transport struct{ m *Medium }
 
+// serverMu makes the in-process server one critical section per request: the harness's own
+// bookkeeping (and whatever the server keeps) is then ordered for the race detector, and
+// since nothing inside is a scheduling point the controlled scheduler never sees it held.
+var serverMu sync.Mutex
+
 func (t transport) RoundTrip(r *http.Request) (*http.Response, error) {
+	serverMu.Lock()
+	defer serverMu.Unlock()
 	if t.m.FailRequest != nil {
 		if err := t.m.FailRequest(r); err != nil {
 			return nil, err
